@@ -44,6 +44,13 @@ def q__ElectrumWallet__serialize(self):
     return self.master_public_key()
 
 
+# pycoin/key/electrum.py :: ElectrumWallet.as_text
+def q__ElectrumWallet__as_text(self):
+    if self._initial_key:
+        return 'E:%s' % self._initial_key
+    return 'E:%s' % b2h(self.serialize())
+
+
 # pycoin/key/electrum.py :: ElectrumWallet.secret_exponent
 def q__ElectrumWallet__secret_exponent(self):
     if self._secret_exponent is None and self._initial_key:
